@@ -112,7 +112,46 @@ EB_ASSUMES = ["tokio timer semantics under the paused clock (inner future polled
               "FuturesUnordered polls newly pushed futures in push order and returns the first ready one",
               "two attempts due at the same instant may complete in either order (compared by specification only)"]
 
+def to_nontrivial(r):
+    t = r["input"].split()
+    return t[2] != "-" and len(t) > 6
+
+def to_dist(rs):
+    d = {"inner_before": 0, "inner_at_deadline": 0, "inner_after": 0, "inner_never": 0, "zero_duration": 0,
+         "res_inner": 0, "res_timeout": 0, "res_pending": 0, "inadequate_schedule": 0}
+    for r in rs:
+        t = r["input"].split()
+        dd = int(t[1]); tt = None if t[2] == "-" else int(t[2])
+        d["zero_duration"] += dd == 0
+        if tt is None: d["inner_never"] += 1
+        elif tt < dd: d["inner_before"] += 1
+        elif tt == dd: d["inner_at_deadline"] += 1
+        else: d["inner_after"] += 1
+        o = r["obs"].split()[0]
+        d["res_inner" if o.startswith("inner") else "res_timeout" if o == "timeout" else "res_pending"] += 1
+        ps = [int(x) for x in t[5:]]
+        m = min(dd, tt) if tt is not None else dd
+        d["inadequate_schedule"] += not (m in ps and all(a < b for a, b in zip(ps, ps[1:])))
+    return d
+
 PROPS = {
+    "C19": {
+        "props_module": "HdModel.Props.C19",
+        "class_prefix": ["C19/"],
+        "theorems": ["Hd.Timeout.C19_result", "Hd.Timeout.C19_no_early_timeout", "Hd.Timeout.C19_inner_first",
+                     "Hd.Timeout.C19_inner_unchanged"],
+        "streams": [
+            {"name": "to", "quick": 6000, "thorough": 200000, "sep": None, "head": 5, "unit": 1,
+             "nontrivial": to_nontrivial, "distribution": to_dist},
+        ],
+        "rule": "durations {0,1,5,10,20,50} x inner completion (never, 0, d-1, d, d+1, random) x result ok/err x poll schedules "
+                "(executor polls at wake instants plus spurious polls; some inadequate/unsorted) on the public service::Timeout under "
+                "tokio's paused clock, polled by hand; observes result, instant, number of inner polls, inner dropped. "
+                "non-trivial = inner completes and >=2 polls",
+        "assumes": ["tokio Sleep: ready exactly from its deadline on (virtual ms)",
+                    "clean-up after a timeout = dropping the inner future = the pool model's cancel (C03/C14 theorems); "
+                    "staged pooled timeouts are exercised by the pool stream"],
+    },
     "C10": {
         "props_module": "HdModel.Props.C10",
         "class_prefix": ["C10/"],
